@@ -16,6 +16,7 @@ use tokio::io::{AsyncReadExt, AsyncWriteExt};
 use tokio::net::{TcpListener, UnixListener};
 
 pub const SOCK: &str = "/tmp/l3h-setup.sock";
+pub const SOCK2: &[u8] = b"/tmp/l3h-setup-\xe9.sock";
 const P_PLAIN: u16 = 38901;
 const P_STARTTLS: u16 = 38902;
 const P_LDAPS: u16 = 38903;
@@ -75,15 +76,19 @@ pub fn net() -> &'static Net {
                     ev.lock().unwrap().push("unix:plain".to_string()); let mut buf = [0u8; 64]; let _ = tokio::time::timeout(Duration::from_secs(3), s.read(&mut buf)).await; }); } } }); }
             Err(_) => ok = false,
         }
+        // a second socket whose path is not UTF-8 (F44): percent-decoding yields octets, and a path is octets
+        { let ev = events.clone(); let p2 = std::path::PathBuf::from(<std::ffi::OsStr as std::os::unix::ffi::OsStrExt>::from_bytes(SOCK2)); let _ = std::fs::remove_file(&p2);
+          if let Ok(l) = rt.block_on(async { UnixListener::bind(&p2) }) { rt.spawn(async move { loop { if let Ok((mut s, _)) = l.accept().await { let ev = ev.clone(); tokio::spawn(async move {
+                ev.lock().unwrap().push("unix2:plain".to_string()); let mut buf = [0u8; 64]; let _ = tokio::time::timeout(Duration::from_secs(3), s.read(&mut buf)).await; }); } } }); } }
         // a listener that accepts and then neither answers nor closes (for the connection-timeout cases)
         match rt.block_on(TcpListener::bind(("127.0.0.1", P_SILENT))) {
             Ok(l) => { rt.spawn(async move { loop { if let Ok((s, _)) = l.accept().await { tokio::spawn(async move { tokio::time::sleep(Duration::from_secs(6)).await; drop(s); }); } } }); }
             Err(_) => ok = false,
         }
         // behaviour listeners (C17)
-        for (port, starttls) in [(P_STARTTLS, true), (P_LDAPS, false)] {
+        for (port, starttls, addr) in [(P_STARTTLS, true, "127.0.0.1"), (P_LDAPS, false, "127.0.0.1"), (P_STARTTLS, true, "::1"), (P_LDAPS, false, "::1")] {
             let ev = events.clone(); let bh = behaviour.clone();
-            match rt.block_on(TcpListener::bind(("127.0.0.1", port))) {
+            match rt.block_on(TcpListener::bind((addr, port))) {
                 Ok(l) => { rt.spawn(async move { loop { if let Ok((mut s, _)) = l.accept().await { let ev = ev.clone(); let b = bh.lock().unwrap().clone(); tokio::spawn(async move {
                         let mut buf = vec![0u8; 4096];
                         if starttls {
@@ -131,7 +136,7 @@ pub fn net() -> &'static Net {
                             _ => { ev.lock().unwrap().push("tls:handshake-failed".into()); }
                         }
                     }); } } }); }
-                Err(_) => ok = false,
+                Err(_) => if addr != "::1" { ok = false },     // no IPv6 loopback: the v6 cases are skipped
             }
         }
         Net { rt, events, behaviour, ok }
@@ -167,7 +172,7 @@ pub fn gen_setup(rng: &mut Rng, n: usize, out: &mut Vec<String>) {
         k += stride;
     }
     // always: socket paths whose percent-encoding hides a colon (the colon test is on the host as written in the URL), an ldapi URL with a real port
-    for u in ["ldapi://%2ftmp%2fl3h%3A389.sock", "ldapi://%2Ftmp%2Fa%3ab", "ldapi://%2ftmp%2fx:389"] {
+    for u in ["ldapi://%2ftmp%2fl3h%3A389.sock", "ldapi://%2Ftmp%2Fa%3ab", "ldapi://%2ftmp%2fx:389", "ldapi://%2ftmp%2fl3h-setup-%e9.sock", "ldapi://%2ftmp%2fl3h-setup-%E9.sock/", "ldapi://%2ftmp%2fl3h-setup-%c3%a9.sock"] {
         let (sch, host, port) = match url::Url::parse(u) { Ok(p) => (p.scheme().to_string(), p.host_str().map(|h| hex(h.as_bytes())).unwrap_or("none".into()), p.port().map(|x| x.to_string()).unwrap_or("none".into())), Err(_) => ("-".into(), "none".into(), "none".into()) };
         out.push(format!("setup {} {} {} {} 0 none none", hex(u.as_bytes()), sch, host, port));
     }
@@ -267,7 +272,7 @@ pub fn run_setup(lane: &str, args: &[&str]) -> (String, Option<String>) {
         // an I/O-class refusal with a pre-opened stream: the stream's own connection at its listener is not a contact made by the library
         else if res == "err:io" && pre != "none" { "err:io no-contact".to_string() }
         else { match (&contact, pre) {
-            (Some(cn), "none") => { let f: Vec<&str> = cn.split(':').collect(); if f[0] == "unix" { format!("unix path={}", hex(SOCK.as_bytes())) } else { format!("tcp port={} mode={}", f[0], f[1]) } }
+            (Some(cn), "none") => { let f: Vec<&str> = cn.split(':').collect(); if f[0] == "unix" { format!("unix path={}", hex(SOCK.as_bytes())) } else if f[0] == "unix2" { format!("unix path={}", hex(SOCK2)) } else { format!("tcp port={} mode={}", f[0], f[1]) } }
             (Some(cn), "tcp") => format!("pretcp mode={}", cn.split(':').nth(1).unwrap_or("?")),
             (Some(_), _) => "preunix".to_string(),
             (None, _) => format!("{} no-contact", res),
@@ -295,19 +300,22 @@ pub fn gen_tls(rng: &mut Rng, n: usize, out: &mut Vec<String>) {
     // always there, whatever the stride: the peer that closes at once and the peer that speaks first (F23 is a race inside the client: several
     // instances each)
     for fixed in ["tls ldap 1 0 ca slam trusted 1 -", "tls ldap 1 1 none slam selfsigned 1 -", "tls ldap 1 0 none slam trusted 0 -",
-                  "tls ldap 1 0 ca greet trusted 1 -", "tls ldap 1 1 none greet selfsigned 1 -", "tls ldap 1 1 none greet wrongname 1 -", "tls ldap 1 0 ca greet trusted 0 -", "tls ldap 1 0 ca greet trusted 1 forged", "tls ldap 1 0 ca rc4294967296 trusted 1 -", "tls ldap 1 1 none rc227633266688 selfsigned 1 -"] {
+                  "tls ldap 1 0 ca greet trusted 1 -", "tls ldap 1 1 none greet selfsigned 1 -", "tls ldap 1 1 none greet wrongname 1 -", "tls ldap 1 0 ca greet trusted 0 -", "tls ldap 1 0 ca greet trusted 1 forged", "tls ldap 1 0 ca rc4294967296 trusted 1 -", "tls ldap 1 1 none rc227633266688 selfsigned 1 -",
+                  "tls ldaps 0 0 ca success trusted 1 v6", "tls ldap 1 0 ca success trusted 1 v6", "tls ldaps 0 0 ca success wrongname 1 v6", "tls ldaps 0 0 none success trusted 1 v6", "tls ldaps 0 1 none success selfsigned 1 v6"] {
         if !out.iter().any(|x| x == fixed) { out.push(fixed.to_string()); }
     }
 }
 
 pub fn run_tls(args: &[&str]) -> (String, Option<String>) {
     let nt = net();
-    if !nt.ok || !std::path::Path::new("/verif/.cache/certs/good.p12").exists() { return ("skipped".into(), None); }
+    if !nt.ok || !std::path::Path::new("/verif/.cache/certs/done2").exists() { return ("skipped".into(), None); }
     let (scheme, starttls, noverify, connector, answer, cert, hs, extra) = (args[0], args[1] == "1", args[2] == "1", args[3], args[4], args[5], args[6] == "1", args[7]);
     let forged = enc(&message(2, ldap_result(1, 0, b"", b"forged-in-the-clear", None), None));
     *nt.behaviour.lock().unwrap() = Behaviour { answer: answer.into(), cert: cert.into(), handshake_ok: hs, extra: if extra == "forged" { forged } else { vec![] } };
     nt.events.lock().unwrap().clear();
-    let url = format!("{}://localhost:{}", scheme, if scheme == "ldaps" { P_LDAPS } else { P_STARTTLS });
+    // "v6": the server is named by a bracketed IPv6 literal (F43); its certificate is valid for that address
+    if extra == "v6" && std::net::TcpListener::bind("[::1]:0").is_err() { return ("skipped".into(), None); }
+    let url = format!("{}://{}:{}", scheme, if extra == "v6" { "[::1]" } else { "localhost" }, if scheme == "ldaps" { P_LDAPS } else { P_STARTTLS });
     // the settings are a builder: the order of the calls must not matter. Half of the cases (by their arguments) set a generous connection
     // timeout first, the other half last - after StartTLS, verification and the connector have been chosen
     let timeout_last = (args.iter().map(|a| a.len()).sum::<usize>() + starttls as usize + noverify as usize) % 2 == 0;
